@@ -30,6 +30,7 @@ Spec == Init /\ [][Next]_vars
 EmitCex == Good \/ PrintT("BEH " \o ToJson([class |-> "cex", steps |-> hist]))
 
 Terminal == (MaxLen > 0 /\ Len(hist) = MaxLen) \/ ~Good \/ (\A i \in Corr : Len(node[i].fin) >= MaxH)
+             \/ (Len(hist) > 0 /\ Len(hist) % 6 = 0)          \* prefixes too: a random walk may get stuck before MaxLen
 Emit == (EmitAll /\ Terminal) => PrintT("BEH " \o ToJson([class |-> "sim", steps |-> hist]))
 
 \* vacuity probes (expected to be violated: every interesting thing happens)
